@@ -1864,7 +1864,7 @@ func explainAlterCommand(sb *strings.Builder, cmd *ast.AlterCommand, indent stri
 		if cmd.Partition != nil {
 			if cmd.PartitionIsID {
 				if lit, ok := cmd.Partition.(*ast.Literal); ok {
-					fmt.Fprintf(sb, "%s Partition_ID Literal_\\'%v\\' (children 1)\n", indent, lit.Value)
+					fmt.Fprintf(sb, "%s Partition_ID Literal_\\'%s\\' (children 1)\n", indent, partitionIDText(lit))
 					Node(sb, cmd.Partition, depth+2)
 				} else {
 					fmt.Fprintf(sb, "%s Partition_ID (children 1)\n", indent)
@@ -1934,7 +1934,7 @@ func explainAlterCommand(sb *strings.Builder, cmd *ast.AlterCommand, indent stri
 			} else if cmd.PartitionIsID {
 				// PARTITION ID 'value' is shown as Partition_ID Literal_'value' (children 1)
 				if lit, ok := cmd.Partition.(*ast.Literal); ok {
-					fmt.Fprintf(sb, "%s Partition_ID Literal_\\'%v\\' (children 1)\n", indent, lit.Value)
+					fmt.Fprintf(sb, "%s Partition_ID Literal_\\'%s\\' (children 1)\n", indent, partitionIDText(lit))
 					Node(sb, cmd.Partition, depth+2)
 				} else {
 					fmt.Fprintf(sb, "%s Partition_ID (children 1)\n", indent)
@@ -1963,7 +1963,7 @@ func explainAlterCommand(sb *strings.Builder, cmd *ast.AlterCommand, indent stri
 			} else if cmd.PartitionIsID {
 				// PARTITION ID 'value' is shown as Partition_ID Literal_'value' (children 1)
 				if lit, ok := cmd.Partition.(*ast.Literal); ok {
-					fmt.Fprintf(sb, "%s Partition_ID Literal_\\'%v\\' (children 1)\n", indent, lit.Value)
+					fmt.Fprintf(sb, "%s Partition_ID Literal_\\'%s\\' (children 1)\n", indent, partitionIDText(lit))
 					Node(sb, cmd.Partition, depth+2)
 				} else {
 					fmt.Fprintf(sb, "%s Partition_ID (children 1)\n", indent)
@@ -2137,6 +2137,15 @@ func explainStatisticsTypeFunction(sb *strings.Builder, fn *ast.FunctionCall, in
 			Node(sb, arg, depth+2)
 		}
 	}
+}
+
+// partitionIDText is the text of a PARTITION ID value inside the Partition_ID header line:
+// a string is escaped like any string literal, other literals print their value.
+func partitionIDText(lit *ast.Literal) string {
+	if s, ok := lit.Value.(string); ok {
+		return escapeStringLiteral(s)
+	}
+	return fmt.Sprintf("%v", lit.Value)
 }
 
 func countAlterCommandChildren(cmd *ast.AlterCommand) int {
@@ -2342,7 +2351,7 @@ func explainOptimizeQuery(sb *strings.Builder, n *ast.OptimizeQuery, indent stri
 		} else if n.PartitionByID {
 			// PARTITION ID 'value' is shown as Partition_ID Literal_'value' (children 1)
 			if lit, ok := n.Partition.(*ast.Literal); ok {
-				fmt.Fprintf(sb, "%s Partition_ID Literal_\\'%v\\' (children 1)\n", indent, lit.Value)
+				fmt.Fprintf(sb, "%s Partition_ID Literal_\\'%s\\' (children 1)\n", indent, partitionIDText(lit))
 				Node(sb, n.Partition, depth+2)
 			} else {
 				fmt.Fprintf(sb, "%s Partition_ID (children 1)\n", indent)
